@@ -17,8 +17,55 @@ let intern s =
 let name_of n = if n = 0 then "Comment" else if n = 1 then "Error" else
   (match Hashtbl.find_opt rev_names n with Some s -> s | None -> "?")
 
+
+(* ---- grammar model (Model/Grammar.v): names <-> the codes defined there (generated from Grammar.v) ---- *)
+let tok_codes = [ "Int", 1; "Hex", 2; "Bin", 3; "Float", 4; "Bool", 5; "DoubleQuote", 6; "SingleQuote", 7; "StringContents", 8; "Escape", 9; "Ident", 10; "Caret", 11; "Mut", 12; "Hash", 13; "Distinct", 14; "Comptime", 15; "Struct", 16; "Enum", 17; "Question", 18; "Hyphen", 19; "Plus", 20; "Bang", 21; "Tilde", 22; "If", 23; "Else", 24; "While", 25; "Loop", 26; "Switch", 27; "LParen", 28; "RParen", 29; "LBrack", 30; "RBrack", 31; "LBrace", 32; "RBrace", 33; "Dot", 34; "Backtick", 35; "Colon", 36; "Comma", 37; "Ellipsis", 38; "Arrow", 39; "Extern", 40; "As", 41; "Try", 42; "In", 43; "FatArrow", 44; "Equals", 45; "Semicolon", 46; "Return", 47; "Break", 48; "Continue", 49; "Defer", 50; "DoublePipe", 51; "DoubleAnd", 52; "Left", 53; "LeftEquals", 54; "Right", 55; "RightEquals", 56; "DoubleEquals", 57; "BangEquals", 58; "Pipe", 59; "Asterisk", 60; "Slash", 61; "Percent", 62; "And", 63; "DoubleLeft", 64; "DoubleRight", 65 ]
+let node_names = [ 0, "Comment"; 1, "Error"; 2, "Root"; 3, "VarRef"; 4, "Call"; 5, "ArgList"; 6, "Arg"; 7, "Directive"; 8, "ArrayDecl"; 9, "ArraySize"; 10, "ArrayLiteral"; 11, "ArrayItem"; 12, "IndexExpr"; 13, "Index"; 14, "Source"; 15, "Distinct"; 16, "ComptimeExpr"; 17, "ParenExpr"; 18, "Block"; 19, "IfExpr"; 20, "ElseBranch"; 21, "WhileExpr"; 22, "Condition"; 23, "SwitchExpr"; 24, "SwitchArm"; 25, "VariantShorthand"; 26, "DefaultArm"; 27, "LabelDecl"; 28, "LabelRef"; 29, "IntLiteral"; 30, "FloatLiteral"; 31, "BoolLiteral"; 32, "CharLiteral"; 33, "StringLiteral"; 34, "CastExpr"; 35, "RefExpr"; 36, "MutExpr"; 37, "DerefExpr"; 38, "BinaryExpr"; 39, "UnaryExpr"; 40, "Binding"; 41, "VarDef"; 42, "Assign"; 43, "ExprStmt"; 44, "ReturnStmt"; 45, "BreakStmt"; 46, "ContinueStmt"; 47, "DeferStmt"; 48, "Lambda"; 49, "ParamList"; 50, "Param"; 51, "StructDecl"; 52, "MemberDecl"; 53, "StructLiteral"; 54, "MemberLiteral"; 55, "EnumDecl"; 56, "VariantDecl"; 57, "Discriminant"; 58, "OptionalDecl"; 59, "ErrorTy"; 60, "PayloadTy"; 61, "ErrorUnionDecl"; 62, "PropagateExpr"; 63, "Ty"; 64, "Path" ]
+let text_class = function "rawptr" -> 1 | "import" -> 2 | "mod" -> 3 | "_" -> 4 | _ -> 0
+
+(* "G <S|R> <bump:u|f> <loops:u|f> | tok:len[:text] ..." -> "<status> | <events> | <errs>" *)
+let grammar_line (line : string) : string =
+  match String.split_on_char '|' line with
+  | head :: toks :: _ ->
+    let hw = List.filter (fun w -> w <> "") (String.split_on_char ' ' head) in
+    let repl, fb, fl = match hw with
+      | [_; m; b; l] -> m = "R", b = "f", l = "f"
+      | _ -> failwith "bad G header" in
+    let words = List.filter (fun w -> w <> "") (String.split_on_char ' ' toks) in
+    let parsed = List.map (fun w ->
+      match String.split_on_char ':' w with
+      | k :: len :: rest ->
+        let kind = match k with
+          | "Whitespace" -> ParserCore.KWs | "CommentLeader" -> ParserCore.KCLead | "CommentContents" -> ParserCore.KCCont
+          | _ -> ParserCore.KTok (n_of_int (match List.assoc_opt k tok_codes with Some c -> c | None -> 0)) in
+        ((kind, nat_of_int (int_of_string len)), n_of_int (match rest with [t] -> text_class t | _ -> 0))
+      | _ -> failwith "bad token") words in
+    let tokens = List.map fst parsed and tx = List.map snd parsed in
+    let cfg = { Grammar.fix_bump = fb; Grammar.fix_loops = fl } in
+    let buf = Buffer.create 256 in
+    (match Grammar.parse_top cfg tx repl (Grammar.grammar_fuel tokens) tokens with
+     | Util.Ok s ->
+       let all = List.for_all (fun e -> e <> None) s.ParserCore.evs in
+       Buffer.add_string buf (if all then "ok | " else "UNCOMPLETED | ");
+       List.iter (fun e -> match e with
+         | Some (ParserCore.EStart k) ->
+           Buffer.add_string buf ("S" ^ (match List.assoc_opt (int_of_n k) node_names with Some n -> n | None -> "?") ^ " ")
+         | Some ParserCore.EFinish -> Buffer.add_string buf "F "
+         | Some ParserCore.EAdd -> Buffer.add_string buf "A "
+         | None -> Buffer.add_string buf "NONE ") s.ParserCore.evs;
+       Buffer.add_string buf "| ";
+       List.iter (fun e -> match e with
+         | ParserCore.Missing o -> Buffer.add_string buf (Printf.sprintf "%d-%d," (int_of_nat o) (int_of_nat o))
+         | ParserCore.UnexpectedTok (a, b) | ParserCore.UnexpectedNode (a, b) ->
+           Buffer.add_string buf (Printf.sprintf "%d-%d," (int_of_nat a) (int_of_nat b))) s.ParserCore.errs;
+       Buffer.contents buf
+     | Util.Crash n -> Printf.sprintf "CRASH%d | | " (int_of_n n)
+     | Util.OutOfFuel -> "FUEL | | ")
+  | _ -> "BAD"
+
 let () =
   iter_lines (fun line ->
+    if String.length line > 1 && line.[0] = 'G' && line.[1] = ' ' then print_endline (try grammar_line line with Failure m -> "BAD " ^ m) else
     match String.split_on_char '|' line with
     | evs :: toks :: _ ->
       let words s = List.filter (fun w -> w <> "") (String.split_on_char ' ' s) in
@@ -27,8 +74,8 @@ let () =
         else EStart (n_of_int (intern (String.sub w 1 (String.length w - 1))))) (words evs) in
       let tnames = ref [] in
       let tokens = List.map (fun w ->
-        let i = String.rindex w ':' in
-        let k = String.sub w 0 i and len = int_of_string (String.sub w (i + 1) (String.length w - i - 1)) in
+        let k, len = match String.split_on_char ':' w with
+          | k :: l :: _ -> k, int_of_string l | _ -> failwith "bad token" in
         tnames := k :: !tnames;
         let kind = match k with
           | "Whitespace" -> KWs | "CommentLeader" -> KCLead | "CommentContents" -> KCCont
